@@ -356,6 +356,12 @@ nextFileMatch:
 	}
 
 	for _, md := range d.repoMetaData {
+		// 🚨 SECURITY: Skip repositories that don't belong to the tenant. This check
+		// is necessary to prevent leaking repository names and URL templates
+		// across tenants.
+		if !tenant.HasAccess(ctx, md.TenantID) {
+			continue
+		}
 		r := md
 		addRepo(&res, &r)
 		for _, v := range r.SubRepoMap {
